@@ -1,6 +1,8 @@
 """C02 - every occurrence is found exactly once, also across periodic boundaries."""
 import numpy as np
 
+from vmon.oracle.util import elements_of
+
 from vmon import events
 from vmon.gen import inplace, patterns, planted
 from vmon.oracle import geometry as G
@@ -60,7 +62,7 @@ def search_and_judge(ctx, st, case, pat, built, atol, hints=(None, None, None), 
     if not refmatch.in_domain(cell, atoms.positions, ppos, atol):
         st.count("out_of_domain_skipped")
         return None
-    ref = refmatch.search(list(atoms.elements), atoms.positions, cell, pat["elements"], ppos, atol)
+    ref = refmatch.search(elements_of(atoms), atoms.positions, cell, pat["elements"], ppos, atol)
     if ref["truncated"]:
         st.count("reference_truncated_skipped")
         return None
